@@ -178,7 +178,7 @@ def overlapping_writers(chk, binp):
     report ready and the last of them publishes): a reader polling the file must never find one and the same file (inode) with two
     different contents - a published file is replaced, never written to - and never a partial text"""
     import threading
-    for before in ("", "rk", "l"):
+    for before in ("", "r", "k"):          # the listener of the stack has reported ready at start-up
         stack = e2e.Stack(binp)
         try:
             tag = os.path.join(stack.sd, "keys", "status.tag")
@@ -225,9 +225,30 @@ def overlapping_writers(chk, binp):
         d = {"schedule": "deadline handler (ready before: %r) held at its last status read; the other subsystems report ready and publish; "
                          "then the deadline handler publishes" % before,
              "observed_by_a_polling_reader": [[i, c[:60].decode("latin-1")] for i, c in seen][:8]}
+        if r == "nothing-missing":
+            chk.notes.append("overlapping-writers: nothing was missing after %r" % before)
+            continue
         if r not in ("overlapped", "sequential"):
             chk.disagreement("status-tag", d, "the schedule to run", r)
             continue
+        # the model (Gpa.TagInodes): the two writers' stretches in the order they ran; what it publishes, oldest first
+        w1 = "o1 w1:%s r" % max([c for _i, c in seen] or [b""], key=len).hex()      # the deadline handler's text: the non-empty one
+        ops = ("o2 w2: r " + w1) if r == "overlapped" else (w1 + " o2 w2: r")
+        try:
+            mo = vlib.run_driver(["taginodes " + ops])[0]
+        except RuntimeError as e:
+            chk.broken.append({"kind": "driver", "name": "taginodes", "why": str(e)})
+            continue
+        mm_ = re.match(r"safe=(\d) pubs=(\S*) tag=(\S+)$", mo)
+        if not mm_ or mm_.group(1) != "1":
+            chk.disagreement("status-tag", d, "the model runs the schedule safely", mo)
+            continue
+        model_pubs = [bytes.fromhex(x.split(":")[1].replace("-", "")) for x in mm_.group(2).split(",") if x]
+        obs = [c for _i, c in seen]
+        it = iter(model_pubs)
+        if all(len(cs) == 1 for cs in by_ino.values()) and (not all(any(c == m for m in it) for c in obs) or len(by_ino) > len(model_pubs)):
+            # what the reader saw is not a subsequence of what the model publishes (a reader may miss a publication, never see another)
+            chk.disagreement("status-tag", d, "publications %r" % [m[:40] for m in model_pubs], "observed %r over %d files" % ([c[:40] for c in obs], len(by_ino)))
         changed = {i: cs for i, cs in by_ino.items() if len(cs) > 1}
         torn = [c for _i, c in seen if not tag_ok(c)]
         if changed or torn:
